@@ -94,10 +94,15 @@ type pathKey struct {
 	seed             int64
 	now              uint32
 	tie              bool
+	sb               int // number of standby validators (BFT weight 0) among the nv genesis validators
 }
 
 func (k pathKey) resetLine() string {
-	return fmt.Sprintf("reset nv=%d seed=%d now=%d F=%d Q=%d P=%d tie=%s", k.nv, k.seed, k.now, k.F, k.Q, k.P, b01(k.tie))
+	s := fmt.Sprintf("reset nv=%d seed=%d now=%d F=%d Q=%d P=%d tie=%s", k.nv, k.seed, k.now, k.F, k.Q, k.P, b01(k.tie))
+	if k.sb > 0 {
+		s += fmt.Sprintf(" sb=%d", k.sb)
+	}
+	return s
 }
 
 // pathWorld holds the blocks of one scenario geometry with the alterations of the block of height pos.
@@ -140,6 +145,13 @@ func (k pathKey) caseCfg() caseCfg {
 	c.weights = make([]uint64, k.nv)
 	for i := range c.weights {
 		c.weights[i] = 1
+	}
+	if k.sb > 0 {
+		// standby validators at positions derived from the seed: they own their slots, they do not vote
+		for _, i := range rand.New(rand.NewSource(k.seed ^ 0x5b)).Perm(k.nv)[:k.sb] {
+			c.weights[i] = 0
+		}
+		c.batch = k.nv - k.sb + 1
 	}
 	if k.tie {
 		// the wall clock lies in the middle of slot F+3: the tip T gets slot F+2, the competing block slot F+3
@@ -184,7 +196,7 @@ func (w *pathWorld) build() {
 		if k.tie {
 			o.SlotsAhead = 0 // one slot per block: the slots up to the wall clock are counted
 		}
-		b, err := a.BuildBlock(o)
+		b, err := p.buildHonest(&o)
 		if err == nil {
 			err = p.applyBlock("base", o.ValidatorChange, b)
 		}
@@ -240,7 +252,7 @@ func (w *pathWorld) build() {
 			}
 			o.ValidatorChange = nil
 		}
-		b0, err := a.BuildBlock(o)
+		b0, err := p.buildHonest(&o)
 		if err != nil {
 			w.err = fmt.Errorf("peer block %d: %w", h, err)
 			return
@@ -612,13 +624,14 @@ func (w *world) trackGens(b *blockchain.Block) {
 	if err != nil || len(s.Validators) == 0 {
 		return
 	}
-	var vals []*node.Validator
+	g := genList{from: b.Header.Height + 1}
 	for _, sv := range s.Validators {
 		if kh := w.n.ValidatorByAddress(corr.UnHex(orDash(sv.Address))); kh != nil {
-			vals = append(vals, kh)
+			g.vals = append(g.vals, kh)
+			g.w = append(g.w, sv.BFTWeight)
 		}
 	}
-	w.gens = append(w.gens, genList{from: b.Header.Height + 1, vals: vals})
+	w.gens = append(w.gens, g)
 }
 
 // checkChain is the oracle on the requester's chain: every stored block is judged by the reference on a
@@ -634,7 +647,7 @@ func checkChain(cfg caseCfg, q *node.Node, what string) (fails []corr.Fail) {
 	}
 	defer t.Close()
 	t.ABI.LogCalls = false
-	w := &world{n: t, gens: []genList{{from: 1, vals: append([]*node.Validator{}, t.Validators[:cfg.nv]...)}}}
+	w := &world{n: t, gens: []genList{genesisList(t, cfg.nv, cfg.weights)}}
 	now := nowUnix()
 	top := q.Height()
 	for h := uint32(1); h <= top; h++ {
@@ -702,6 +715,11 @@ func parsePathReset(w []string) (pathKey, bool) {
 	k.Q, err[4] = strconv.Atoi(m["Q"])
 	k.P, err[5] = strconv.Atoi(m["P"])
 	k.tie = m["tie"] == "1"
+	if s, ok := m["sb"]; ok {
+		if k.sb, e = strconv.Atoi(s); e != nil || k.sb < 0 || k.sb > k.nv-2 {
+			return k, false
+		}
+	}
 	for _, e := range err {
 		if e != nil {
 			return k, false
@@ -758,6 +776,10 @@ func runPathOnce(k pathKey, words []string) (out string, fails []corr.Fail, retr
 	}
 	k.pos = pos
 	wd, err := worldFor(k)
+	if err != nil && strings.Contains(err.Error(), "invalid block generator") {
+		// the honest chain is built by the owners of the slots according to the APPLICATION's list (applist.go)
+		return "setup-failed", []corr.Fail{{Sig: "c03-owner-block-rejected", Detail: k.resetLine() + ": the node refuses the block of the owner of the slot according to the application's validator list: " + err.Error()}}, false
+	}
 	if err != nil {
 		return "setup-failed", []corr.Fail{{Sig: "c03-path-harness", Detail: "scenario: " + err.Error()}}, false
 	}
@@ -1000,6 +1022,7 @@ func (pathsProp) Generate(rng *rand.Rand, tier string) []corr.Case {
 		nv, F, Q, P int
 		tie         bool
 		vias        []string
+		sb          int
 	}
 	// 2n = 8: own tip 2 above the fork point, the peer 3 further: the fast synchroniser
 	// 2n = 6: the peer 8 above the own tip: the block synchroniser (Syncer.Sync chooses it for `process`)
@@ -1007,7 +1030,7 @@ func (pathsProp) Generate(rng *rand.Rand, tier string) []corr.Case {
 		{nv: 4, F: 5, Q: 7, P: 10, vias: []string{"process", "fast", "block"}},
 		{nv: 3, F: 4, Q: 5, P: 13, vias: []string{"process", "block"}},
 		{nv: 3, F: 4, tie: true, vias: []string{"tie"}},
-		{nv: 5, F: 7, Q: 9, P: 11, vias: []string{"fast", "process"}},
+		{nv: 5, F: 7, Q: 9, P: 11, vias: []string{"fast", "process"}, sb: 1}, // one of the five generators is a standby validator
 	}
 	if thorough {
 		geos = append(geos, geo{nv: 5, F: 8, Q: 9, P: 12, vias: []string{"process", "fast", "block"}}, geo{nv: 2, F: 3, Q: 4, P: 5, vias: []string{"process", "fast", "block"}},
@@ -1015,7 +1038,7 @@ func (pathsProp) Generate(rng *rand.Rand, tier string) []corr.Case {
 	}
 	var cases []corr.Case
 	for gi, g := range geos {
-		k := pathKey{nv: g.nv, seed: rng.Int63n(1 << 40), now: now, F: g.F, Q: g.Q, P: g.P, tie: g.tie}
+		k := pathKey{nv: g.nv, seed: rng.Int63n(1 << 40), now: now, F: g.F, Q: g.Q, P: g.P, tie: g.tie, sb: g.sb}
 		if g.tie {
 			k.Q, k.P = g.F, g.F+1
 		}
@@ -1080,11 +1103,21 @@ func (pathsProp) Generate(rng *rand.Rand, tier string) []corr.Case {
 				for i, l := range pick("static", 3) {
 					add(via(i), ps.h, l, ps.kind)
 				}
+				picked := map[string]bool{}
 				for i, l := range pick("dynamic", 8) {
 					add(via(i+pi), ps.h, l, ps.kind)
+					picked[l] = true
 				}
 				for i, l := range pick("harmless", 3) {
 					add(via(i), ps.h, l, ps.kind)
+					picked[l] = true
+				}
+				// who may generate in the slot (applist.go): with standby validators in the list every variant of
+				// the slot owner and the standby validator's own block travel through the paths, otherwise one
+				for i, l := range append(append([]string{}, byFam["dynamic"]...), byFam["harmless"]...) {
+					if strings.HasPrefix(l, "owner-") && !picked[l] && (g.sb > 0 || i%5 == 0) {
+						add(via(i), ps.h, l, ps.kind)
+					}
 				}
 				for _, v := range g.vias {
 					add(v, ps.h, "none", ps.kind)
